@@ -282,6 +282,13 @@ pub fn graph_scenario(idx: usize, rng: &mut Rng, o: &GraphOpts, family: &str) ->
             }
         }
     }
+    if family == "anon" || family == "anontext" {
+        for r in 0..w.n() {
+            if !w.dead {
+                w.probe_anonymize(r);
+            }
+        }
+    }
     if family == "serde" {
         for r in 0..w.n() {
             if !w.dead {
